@@ -197,6 +197,24 @@ func snapAll(e *env, n int) map[string]lpSnap {
 // judged like a removal: it needs matured, unexpired requests, consumes them, and counts in the
 // ledger.  Any change is also shown to the model (`obs`): the model knows of no message that touches
 // another provider's record.
+// judgeMany: like judgeOthers for a hook that raised the units of several records by known amounts
+func judgeMany(out *Out, cause string, before, after map[string]lpSnap, ups map[string]*big.Int, L, C uint64, h int64) {
+	keys := make([]string, 0, len(before))
+	for k := range before {
+		keys = append(keys, k)
+	}
+	sort.Strings(keys)
+	for _, k := range keys {
+		one := map[string]lpSnap{k: before[k]}
+		two := map[string]lpSnap{k: after[k]}
+		if up, ok := ups[k]; ok {
+			judgeOthers(out, cause, one, two, "", "", k, up, L, C, h)
+		} else {
+			judgeOthers(out, cause, one, two, "", "", "", nil, L, C, h)
+		}
+	}
+}
+
 func judgeOthers(out *Out, cause string, before, after map[string]lpSnap, self string, skip string, upKey string, expectUp *big.Int, L, C uint64, h int64) {
 	keys := make([]string, 0, len(before))
 	for k := range before {
@@ -288,7 +306,9 @@ func init() {
 			whale := e.accts[nProv]
 			h := int64(1 + rng.Intn(5))
 			var L, C uint64 = periodChoices[rng.Intn(len(periodChoices))], periodChoices[rng.Intn(len(periodChoices))]
-			e.app.ClpKeeper.SetRewardParams(e.ctx, &clptypes.RewardParams{LiquidityRemovalLockPeriod: L, LiquidityRemovalCancelPeriod: C})
+			distribute := rng.Chance(1, 3) // rewards epoch: pay to the wallet (true) or re-invest into the position (false)
+			e.app.ClpKeeper.SetRewardParams(e.ctx, &clptypes.RewardParams{LiquidityRemovalLockPeriod: L, LiquidityRemovalCancelPeriod: C,
+				RewardsEpochIdentifier: "hour", RewardsDistribute: distribute, RewardsLockPeriod: uint64(rng.Intn(3))})
 			out.Emit(fmt.Sprintf("reset %d %d", L, C), "ok", "reset", false)
 			// configuration dimensions of this history: raw external:native ratio of each pool, which pools
 			// are margin enabled, removal queue on/off, removal-queue threshold, margin liabilities
@@ -308,6 +328,10 @@ func init() {
 				if err, _ := e.deliver(h, msg.ValidateBasic, func(ctx sdk.Context) error { _, err := e.clp.CreatePool(sdk.WrapSDKContext(ctx), msg); return err }); err != nil {
 					panic(err)
 				}
+			}
+			for _, p := range unlockPools { // the pool creator's record, so that the model knows every provider of the pool
+				d, lp := lpDump(e, p, whale)
+				out.Emit(fmt.Sprintf("add %d %s/p%d %s", h, p, nProv, unitsOf(lp)), "ok "+d, "add.creator", false)
 			}
 			e.app.ClpKeeper.SetParams(e.ctx, clptypes.Params{MinCreatePoolThreshold: 100, EnableRemovalQueue: queueOn})
 			mp := e.app.MarginKeeper.GetParams(e.ctx)
@@ -400,7 +424,48 @@ func init() {
 					}
 					judgeOthers(out, "hook", hb, snapAll(e, nProv), "", "", "", nil, L, C, h)
 					c02Units(e, out, "hook")
+					if rng.Chance(1, 6) { // the rewards epoch: fund the buckets (a real message of the pool creator), then the epoch-end hook
+						var coins sdk.Coins
+						for _, p := range unlockPools {
+							if rng.Chance(2, 3) {
+								coins = coins.Add(sdk.NewCoin(p, sdk.NewIntFromBigInt(rng.BigBits(40+rng.Intn(35)))))
+							}
+						}
+						if !coins.Empty() {
+							fb := snapAll(e, nProv)
+							msg := &clptypes.MsgAddLiquidityToRewardsBucketRequest{Signer: whale.String(), Amount: coins}
+							err, _ := e.deliver(h, msg.ValidateBasic, func(ctx sdk.Context) error {
+								_, err := e.clp.AddLiquidityToRewardsBucket(sdk.WrapSDKContext(ctx), msg)
+								return err
+							})
+							out.Emit(fmt.Sprintf("# fund rewards buckets %s: %v", coins, err), "bad-op", "bucket.fund", false)
+							judgeOthers(out, "bucketfund", fb, snapAll(e, nProv), "", "", "", nil, L, C, h)
+						}
+						eb := snapAll(e, nProv)
+						ectx, ewrite := e.ctx.WithBlockHeight(h).CacheContext()
+						if protect(func() string { e.app.ClpKeeper.AfterEpochEnd(ectx, "hour", h); return "ok" }) == "ok" {
+							ewrite()
+						}
+						ea := snapAll(e, nProv)
+						// units the hook added to a record are an environment value for the model (as for an add);
+						// the unlock list of the record must not have moved: the model's answer keeps it
+						ups := map[string]*big.Int{}
+						ekeys := make([]string, 0, len(eb))
+						for k2 := range eb {
+							ekeys = append(ekeys, k2)
+						}
+						sort.Strings(ekeys)
+						for _, k2 := range ekeys {
+							if d := new(big.Int).Sub(ea[k2].units, eb[k2].units); d.Sign() > 0 {
+								ups[k2] = d
+								out.Emit(fmt.Sprintf("add %d %s %s", h, k2, d), "ok "+ea[k2].dump, "epoch.reinvest", true)
+							}
+						}
+						judgeMany(out, "epoch", eb, ea, ups, L, C, h)
+						c02Units(e, out, "epoch")
+					}
 				}
+				_, lpBefore = lpDump(e, pool, prov) // the hooks above may have changed the record
 				snapBefore := snapAll(e, nProv)
 				units := unitsOf(lpBefore)
 				// what the code would call matured and unexpired right now (generator guidance only)
@@ -482,7 +547,8 @@ func init() {
 					if sc != nil {
 						nl, nc = sc.L, sc.C
 					}
-					msg := &clptypes.MsgUpdateRewardsParamsRequest{Signer: e.admin.String(), LiquidityRemovalLockPeriod: nl, LiquidityRemovalCancelPeriod: nc}
+					msg := &clptypes.MsgUpdateRewardsParamsRequest{Signer: e.admin.String(), LiquidityRemovalLockPeriod: nl, LiquidityRemovalCancelPeriod: nc,
+						RewardsEpochIdentifier: "hour", RewardsDistribute: distribute, RewardsLockPeriod: uint64(rng.Intn(3))}
 					err, _ := e.deliver(h, msg.ValidateBasic, func(ctx sdk.Context) error { _, err := e.clp.UpdateRewardsParams(sdk.WrapSDKContext(ctx), msg); return err })
 					if err != nil {
 						panic(fmt.Sprintf("UpdateRewardsParams by the admin failed: %v", err))
